@@ -10,6 +10,9 @@
 //     else: its parked metadata is consumed and its payload released (C03, C05, C18), no system runs (C18);
 //  B. a command whose callback is taken while this is NOT the root call is postponed: appended to the buffer, nothing else
 //     (no cleanup yet: its metadata must stay parked) (C02-function level, C12);
+//  E. (program-point obligation) on EVERY level of the tree, after the system ran and its garbage was collected, removals and
+//     despawns are polled before any postponed command is replayed and before the call returns (C07/C08 at function level: a
+//     despawn caused by the run - or by collecting the run's garbage - is turned into reactions inside the same tree);
 //  C. when the root call (counter == 0 on entry) returns after running its system, the buffer is empty and the counter is
 //     0 again (C11-function level).
 // Termination of the discard loop is not verified (cleanup_on_abort is an uninterpreted effect).
@@ -191,6 +194,7 @@ pub open spec fn kept_of(s: Seq<BufferedSyscommand>, command: SystemCommand) -> 
 //@loop 1 |     forall|j: int| 0 <= j < verif_it.index@ ==> replay_step(#[trigger] verif_trace[j], verif_s[j], command, verif_trace[j + 1]),
 //@loop 1 |     verif_kept@ == kept_of(verif_s.take(verif_it.index@ as int), command),
 //@loop 2 | invariant true, ensures world.queue().commands@.len() == 0,
+//@before let mut buffered_syscommands | assert(exists|w: World| #![trigger poll_eff(w)] *world == poll_eff(w)); // clause E
 //@before world.resource_mut::<CobwebCommandQueue<BufferedSyscommand>>().append | assert(buffered_syscommands@ == kept_of(verif_s, command)) by { assert(verif_s.take(verif_s.len() as int) =~= verif_s); }
 
 } // verus!
